@@ -645,15 +645,53 @@ func TestVerif_C12(t *testing.T) {
 	wg.Wait()
 
 	// ---- B: stress -------------------------------------------------------------------------------------------
+	stuckDone := make(chan struct{})
+	go func() { defer close(stuckDone); c12StuckLock(run, t) }()
 	c12Stress(run, u3, run.Env.Pick(40, 600))
 
 	// ---- C: sequential ages x behaviours x stores --------------------------------------------------------------
 	c12Sequential(run, t)
 	c12Legacy(run, t)
+	<-stuckDone
 
 	run.RaceCheck("c12:data-race", "/pkg/middleware/stored_session", "/pkg/sessions/", "/pkg/apis/sessions/", "/providers/")
 	_ = thorough
 	run.Finish(300, 60)
+}
+
+// c12StuckLock (own universe, runs next to the other phases; one request waits out the 5 s lock-obtain timeout): the refresh
+// lock of a stale session is held for the whole wait — a replica that died while refreshing, a provider that answers
+// slowly to a queue of requests. The request that could neither refresh nor validate must not be served.
+func c12StuckLock(run *vfRun, t *testing.T) {
+	u := c12NewUniverse(t, 90, 1)
+	defer u.w.Close()
+	b, _, err := u.stale("rotating", 10*time.Minute)
+	if err != nil {
+		run.Inconclusive("rig: stuck-lock scenario: " + vfTrunc(err.Error(), 60))
+		return
+	}
+	planted := 0
+	for _, k := range u.mr.Keys() {
+		if !strings.HasSuffix(k, ".lock") {
+			_ = u.mr.Set(k+".lock", "held-by-a-dead-replica")
+			planted++
+		}
+	}
+	g0, _ := u.w.IdP.RefreshGrants()
+	uid := "c12-stuck-lock-" + vfRandHex(3)
+	resp := b.Get(u.p[0], "/x", "X-Vf-Id", uid)
+	served := len(u.w.Up.FindHit(uid)) > 0
+	g1, _ := u.w.IdP.RefreshGrants()
+	run.Eval("stuck-lock|lock held for the whole obtain timeout|rotating")
+	run.Count("stuck_lock_cases", 1)
+	if planted == 0 {
+		run.Inconclusive("rig: stuck-lock scenario found no session key")
+		return
+	}
+	if served || resp.Code == 200 {
+		run.Violation("c12:stale-session-honoured", fmt.Sprintf("the refresh lock of a stale session was held for the whole lock-obtain wait: the request was served (%d) although the session was neither refreshed (%d grants) nor validated", resp.Code, g1-g0),
+			map[string]interface{}{"flags": u.flags, "status": resp.Code, "served": served, "refresh_grants": g1 - g0})
+	}
 }
 
 // c12Stress: truly concurrent requests, no scheduling; seeded random delays at the gates widen the windows.
@@ -770,6 +808,7 @@ func c12Legacy(run *vfRun, t *testing.T) {
 	w := vfNewWorld(t)
 	defer w.Close()
 	iss := w.IdP.Issuer
+	caseNo := 0
 	for _, store := range []string{"cookie", "redis"} {
 		p, err := w.NewProxy("--provider=keycloak", "--login-url="+iss+"/authorize", "--redeem-url="+iss+"/token", "--profile-url="+iss+"/userinfo", "--validate-url="+iss+"/userinfo",
 			"--session-store-type="+store, "--redis-connection-url="+w.RedisURL(), "--cookie-refresh=1m", "--cookie-expire=2h", "--pass-access-token=true", "--scope=openid")
@@ -778,8 +817,20 @@ func c12Legacy(run *vfRun, t *testing.T) {
 		}
 		for _, kind := range []string{"200", "401", "403", "429", "500", "502", "503", "reset", "200"} {
 			for _, age := range []time.Duration{50 * time.Second, 2 * time.Minute} {
+				// every other case with a session too large for one cookie (300 groups with incompressible names from the
+				// profile endpoint): the cookie store then splits it
+				caseNo++
+				big := caseNo%2 == 0
 				w.IdP.Set(func(c *vfIdPCfg) { c.Hook = nil })
-				id := vfIdentity{Sub: "u-legacy-" + kind, Email: "legacy@example.com", Profile: map[string]interface{}{"sub": "u-legacy", "email": "legacy@example.com", "preferred_username": "legacy"}}
+				prof := map[string]interface{}{"sub": "u-legacy", "email": "legacy@example.com", "preferred_username": "legacy"}
+				if big {
+					var gs []string
+					for g := 0; g < 300; g++ {
+						gs = append(gs, vfRandHex(8))
+					}
+					prof["groups"] = gs
+				}
+				id := vfIdentity{Sub: "u-legacy-" + kind, Email: "legacy@example.com", Profile: prof}
 				b := vfNewBrowser("")
 				if _, _, err := b.Login(p, id, "/"); err != nil {
 					run.Inconclusive("rig: legacy login: " + vfTrunc(err.Error(), 80))
@@ -800,6 +851,9 @@ func c12Legacy(run *vfRun, t *testing.T) {
 					continue
 				}
 				b.Jar.Apply("proxy.test", "/", rw.Header().Values("Set-Cookie"))
+				if n := len(b.Jar.For("proxy.test", "/", false)); n > 1 {
+					run.Count("legacy_cases_with_split_session", 1)
+				}
 				var validations int32
 				if kind != "200" {
 					w.IdP.Set(func(c *vfIdPCfg) {
@@ -839,7 +893,7 @@ func c12Legacy(run *vfRun, t *testing.T) {
 				r2 := b.Get(p, "/x", "X-Vf-Id", uid+"-b")
 				served2 := len(w.Up.FindHit(uid+"-b")) > 0
 				stale := age > time.Minute
-				run.Eval(fmt.Sprintf("legacy-validate|%s|validate=%s|stale=%v", store, kind, stale))
+				run.Eval(fmt.Sprintf("legacy-validate|%s|validate=%s|stale=%v|split-session=%v", store, kind, stale, big))
 				run.Count("legacy_validation_cases", 1)
 				detail := map[string]interface{}{"flags": p.Flags, "validation_answer": kind, "age_s": age / time.Second, "status": []int{r1.Code, r2.Code}, "served": []bool{served1, served2}, "cookies_left": left}
 				switch {
